@@ -9,7 +9,7 @@ use refimpl::ntlm;
 use serde::{Deserialize, Serialize};
 
 pub const LEVEL: &str = "fault_enumeration";
-pub const RULE: &str = "case = (credential set and connector configuration with NLA on, server certificate key in {RSA-2048 CA-signed, RSA-2048, RSA-3072, P-256; in the enumerated section also Ed25519 raw keys, two of them beginning with 0xFF so that the + 1 carries}, reply strategy for the final CredSSP round). Strategies: honest; every single-bit flip of the honest TSRequest (bitflips section: every bit for the P-256 key and every third bit for RSA-2048 in quick, every bit for all four keys in thorough); key + k for k in {0, 2, 255, 256, 65536, ...}, key - 1, big-endian + 1, + 1 on the last byte; sealed under an unknown session key; sealed with the client-to-server keys; wrong signing key only; key + 1 of another certificate; the client's own token reflected; every truncation length; bytes appended inside the token / after the DER; BER re-encoding; advanced cipher state; wrong sequence number; garbage; random token; key + 1 followed or preceded by extra bytes under a valid seal; the same xor mask applied at two positions 1..128 bytes apart (differences that cancel under a folded comparison); constant ('dummy') checksum; ciphertext of another certificate's key + 1 obtained by xor with a zeroed checksum. With the CA-signed identity certificate checking is switched on in most cases (a validated certificate does not replace the key binding). reused-authentication-object: one Ntlm object used for two NLA connections through x224::Client::connect; in the second the final reply is sealed under the FIRST connection's session key (or an unrelated one, or is honest). One case in five (and a list in the enumerated section) uses a CHALLENGE that lacks some of the flags the client asked for (SIGN, SEAL, KEY_EXCH, ALWAYS_SIGN, ESS, 128 ...): the client may refuse it early, but must not release credentials without the proof. Each reply is classified by the reference server itself (lenient decode + unseal with the true keys): if it still yields key + 1 under a valid signature nothing is asserted; otherwise Connector::connect must return Err and the server, reading to EOF, must receive zero application bytes after the AUTHENTICATE message. For the honest reply the next message must be a TSRequest whose authInfo unseals. Non-trivial = the handshake reached the final round and the reply is not 'still honest'; distinct by hash of the case.";
+pub const RULE: &str = "case = (credential set and connector configuration with NLA on, server certificate key in {RSA-2048 CA-signed, RSA-2048, RSA-3072, P-256; in the enumerated section also Ed25519 raw keys, two of them beginning with 0xFF so that the + 1 carries}, reply strategy for the final CredSSP round). Strategies: honest; every single-bit flip of the honest TSRequest (bitflips section: every bit for the P-256 key and every third bit for RSA-2048 in quick, every bit for all four keys in thorough); key + k for k in {0, 2, 255, 256, 65536, ...}, key - 1, big-endian + 1, + 1 on the last byte; sealed under an unknown session key; sealed with the client-to-server keys; wrong signing key only; key + 1 of another certificate; the client's own token reflected; every truncation length; bytes appended inside the token / after the DER; BER re-encoding; advanced cipher state; wrong sequence number; garbage; random token; key + 1 followed or preceded by extra bytes under a valid seal; the same xor mask applied at two positions 1..128 bytes apart (differences that cancel under a folded comparison); constant ('dummy') checksum; ciphertext of another certificate's key + 1 obtained by xor with a zeroed checksum. With the CA-signed identity certificate checking is switched on in most cases (a validated certificate does not replace the key binding). reused-authentication-object: one Ntlm object used for two NLA connections through x224::Client::connect; in the second the final reply is sealed under the FIRST connection's session key (or an unrelated one, or is honest); relay history: a first connection to one certificate, then a connection to a certificate with the same subject, issuer and serial number but another key, answered with the first key + 1 under a valid seal (must be refused) or honestly. One case in five (and a list in the enumerated section) uses a CHALLENGE that lacks some of the flags the client asked for (SIGN, SEAL, KEY_EXCH, ALWAYS_SIGN, ESS, 128 ...): the client may refuse it early, but must not release credentials without the proof. Each reply is classified by the reference server itself (lenient decode + unseal with the true keys): if it still yields key + 1 under a valid signature nothing is asserted; otherwise Connector::connect must return Err and the server, reading to EOF, must receive zero application bytes after the AUTHENTICATE message. For the honest reply the next message must be a TSRequest whose authInfo unseals. Non-trivial = the handshake reached the final round and the reply is not 'still honest'; distinct by hash of the case.";
 
 #[derive(Serialize, Deserialize, Hash, Clone, Debug)]
 pub struct Case {
@@ -108,19 +108,26 @@ pub fn run(c: &Case) -> Outcome {
 #[derive(Serialize, Deserialize, Hash, Clone, Debug)]
 pub struct ReuseCase {
     pub base: C17Case,
-    /// 0 = the second connection is answered honestly; 1 = with the first connection's session key; 2 = an unrelated key
+    /// 0 = the second connection is answered honestly; 1 = with the first connection's session key; 2 = an unrelated key;
+    /// 3 = relay history: the first connection (own authentication object) meets a certificate, the second one a certificate
+    /// with the same subject, issuer and serial number but ANOTHER key, and is answered with the first key + 1 under a valid
+    /// seal (what a relay forwarding the real server's answer sends); 4 = the same history answered honestly
     pub second: u8,
 }
 
 pub fn run_reuse(c: &ReuseCase) -> Outcome {
     let mut out = Outcome::new();
-    out.nontrivial(c.second != 0);
+    out.nontrivial(c.second != 0 && c.second != 4);
     let mut base = c.base.clone();
     base.cfg.nla = true;
     base.cfg.restricted_admin = false;
     base.cfg.blank_creds = false;
     base.cfg.hash = None;
-    let scfg1 = c17::server_cfg(&base);
+    let twin = c.second >= 3;
+    let mut scfg1 = c17::server_cfg(&base);
+    if twin {
+        scfg1.identity = tls::twins().0;
+    }
     let mut ntlm = rdp::nla::ntlm::Ntlm::new(base.cfg.domain.clone(), base.cfg.user.clone(), base.cfg.password.clone());
     let (r1, rep1, t1) = tls::run_x224_nla(&mut ntlm, &scfg1);
     if t1 || rep1.timeout {
@@ -143,10 +150,16 @@ pub fn run_reuse(c: &ReuseCase) -> Outcome {
     let mut scfg2 = c17::server_cfg(&base);
     if let Some(n) = scfg2.nla.as_mut() {
         n.final_reply = match c.second {
-            0 => FinalReply::Honest,
+            0 | 4 => FinalReply::Honest,
             1 => FinalReply::WrongSessionKey(key1.clone()),
+            3 => FinalReply::OtherCert,
             _ => FinalReply::WrongSessionKey(vec![0x42; 16]),
         };
+    }
+    if twin {
+        scfg2.identity = tls::twins().1;
+        ntlm = rdp::nla::ntlm::Ntlm::new(base.cfg.domain.clone(), base.cfg.user.clone(), base.cfg.password.clone());
+        out.label("same-name-and-serial-other-key");
     }
     let (r2, rep2, t2) = tls::run_x224_nla(&mut ntlm, &scfg2);
     if t2 || rep2.timeout {
@@ -156,6 +169,9 @@ pub fn run_reuse(c: &ReuseCase) -> Outcome {
     if let Res::Panic(p) = &r2 {
         fail_panic(&mut out, "x224::Client::connect", p);
         return out;
+    }
+    if twin && std::env::var_os("VERIF_DEBUG").is_some() {
+        eprintln!("twin second={} r2={:?} reached={} honest={} verify={:?} notes={:?} tls_err={:?}", c.second, r2.kind(), rep2.nla.reached_final, rep2.nla.final_is_honest, rep2.nla.verify_error, rep2.nla.notes, rep2.tls_error);
     }
     if !rep2.nla.reached_final {
         out.label("second-final-not-reached");
@@ -170,6 +186,10 @@ pub fn run_reuse(c: &ReuseCase) -> Outcome {
     }
     out.label("must-refuse");
     if r2.is_ok() {
+        if twin {
+            out.fail("nla:accepted:other-cert:same-name-and-serial", "second connection to a certificate with the subject, issuer and serial number of the first but another key: connect returned Ok although the final reply carried the FIRST certificate's key + 1".to_string());
+            return out;
+        }
         out.fail("nla:accepted:previous-session-key", format!("second connection with the same authentication object: connect returned Ok although the final reply was sealed under {} session key", if c.second == 1 { "the FIRST connection's" } else { "an unrelated" }));
         return out;
     }
@@ -384,7 +404,7 @@ pub fn check(rep: &Report) {
     rep.enumerate("bitflips-truncations", false, move |p, n| sweep(tier, p, n), run);
     let mut reuse = Vec::new();
     for id in 0..4u8 {
-        for second in 0..3u8 {
+        for second in 0..5u8 {
             for k in 0..3u8 {
                 let mut b = gen_base(&mut Src::new(&[id, second, k, 77, 1, 2, 3, 4, 5, 6, 7, 8, 9, 10, 11, 12, 13, 14, 15, 16, 17, 18, 19, 20]), Some(id));
                 b.challenge.flags |= ntlm::MANDATORY | ntlm::NEG_UNICODE;
@@ -394,7 +414,8 @@ pub fn check(rep: &Report) {
     }
     rep.list("reused-authentication-object", reuse, run_reuse);
     rep.require("reused-authentication-object", "first-connection-ok", 20);
-    rep.require("reused-authentication-object", "must-refuse", 12);
+    rep.require("reused-authentication-object", "must-refuse", 20);
+    rep.require("reused-authentication-object", "same-name-and-serial-other-key", 20);
     rep.random("replies", rep.tier.n(3_000, 60_000), 200, decode, run);
     rep.require("replies", "must-refuse", 800);
     rep.require("replies", "honest", 50);
